@@ -520,6 +520,46 @@ pub fn run(ctx: &Ctx) -> PropResult {
             }
         }));
     }
+    // EVERY Unicode scalar value in place of each syntax character of a base expression (the range hyphen, the step
+    // slash, the list comma, the star, a field separator, a digit, a letter of a name): whatever it looks like — en dash,
+    // fullwidth comma, fraction slash, Arabic-Indic digit — it is the character itself, white space, or a stray character
+    const SWEEP_BASE: &str = "1-5 */3 1,15 jan-mar mon";
+    const SWEEP_POS: [usize; 9] = [1, 3, 4, 5, 6, 9, 13, 16, 7];
+    wls.push(Workload::chunks("every_code_point_in_place_of_a_syntax_character", 0x11_0000, 1 << 12, |rec, r| {
+        let base: Vec<char> = SWEEP_BASE.chars().collect();
+        let mut n = 0u64;
+        for cp in r {
+            let Some(c) = char::from_u32(cp as u32) else { continue };
+            // which non-ASCII characters count as white space between fields is not settled by the documentation
+            if c.is_whitespace() && !c.is_ascii() {
+                continue;
+            }
+            for pos in SWEEP_POS {
+                if base[pos] == c {
+                    continue;
+                }
+                let mut e = base.clone();
+                e[pos] = c;
+                let expr: String = e.into_iter().collect();
+                n += 1;
+                let spec = cron_spec::parse(&expr);
+                let got = trap(|| CronSchedule::parse(&expr).is_ok());
+                let agree = match (&spec, &got) {
+                    (Spec::Accept(_), Ok(true)) | (Spec::Reject(_), Ok(false)) | (Spec::Unspecified(_), Ok(_)) => true,
+                    _ => false,
+                };
+                if !agree {
+                    rec.cur_idx = cp;
+                    let mut rng = Rng::new(cp);
+                    judge_expression(rec, &expr, &mut rng, "code-point-sweep", false, 1);
+                }
+            }
+        }
+        rec.evals(n);
+        rec.api_n("CronSchedule::parse", n);
+        rec.nontrivial_counted(n);
+        *rec.bins.entry("sweep/every-code-point").or_insert(0) += n;
+    }));
     wls.push(Workload::cases("one_invalid_item_in_a_valid_expression", ctx.count(30_000, 1_500_000), |rec, _, rng| {
         // a grammar-generated (valid) expression in which one list item — at a random position, also
         // after a `*` — is replaced by an item the documented grammar excludes
@@ -615,9 +655,9 @@ pub fn run(ctx: &Ctx) -> PropResult {
         "accept side: expressions generated from the documented grammar (per field a list of 1–4 items from *, */n with n up to the field size, a, a-b; month/weekday names in random case; 7 and ranges ending in 7 in the weekday field; extra/odd whitespace) and, per field, every value, every range start/end, every step and every name; reject side: ALL single-character edits (delete / replace / insert over {{0-9 * , - / + space a-z é}}) of {} base expressions. Verdicts: Ok ⇔ the reference grammar accepts, Err(InvalidFormat) otherwise, never a panic; shapes the documentation does not settle (leading zeros, a-b/n, steps above the field size, ? L W #) are skipped. For accepted expressions the denoted sets are read back behaviourally — clock pinned at t−1 min, fresh clone, next()==t ⇔ t is a member — with one query per value of each field (other fields held at members; day queries on days where the other day field cannot satisfy the OR) plus random minutes; and by window iteration — 24 successive results of one clone under a fixed clock compared with the model's enumeration (also on day-of-month lists/steps/ranges across short months). A further workload plants one invalid item (out-of-range value, zero step, reversed range, empty, junk, signed, trailing range part) inside an otherwise valid list, also directly after a `*`; thorough adds all double edits of four short bases. Every case non-trivial; distinct by hash of the expression. Edit alphabet incl. characters whose case mapping lands on ASCII letters (ſ ı K İ). Boundary-shift sequences: an accepted expression, then as the next parse the same characters split differently (a field boundary moved by one character, two fields swapped), then the first again.",
         bases.len()
     );
-    meta.rule.push_str(" The first result / the window's results are pulled through next() and through the Iterator methods a type may override (nth, take, skip, step_by, for-loops over by_ref). Zero-padded numbers (05, 007, 0-07): whether they are accepted is unspecified, but an accepted expression must denote the sets of its numeric reading.");
+    meta.rule.push_str(" The first result / the window's results are pulled through next() and through the Iterator methods a type may override (nth, take, skip, step_by, for-loops over by_ref). Zero-padded numbers (05, 007, 0-07): whether they are accepted is unspecified, but an accepted expression must denote the sets of its numeric reading. EVERY Unicode scalar value in place of each of nine syntax positions of a base expression (hyphen, slash, comma, star, separator, digit, name letter), accept/reject against the reference grammar (exhaustive over the alphabet).");
     meta.required_bins = vec![
-        "sequence/boundary-shift","parse/accept-accept", "parse/reject-reject", "parse/unspecified-shape-skipped", "sets/queried", "sets/window-iterated", "pull/next", "pull/take", "pull/nth(0)", "pull/nth(k)-then-next", "pull/skip-take", "pull/step_by", "pull/for-loop", "parse/leading-zero-accepted:sets-judged", "invalid-item/in-list", "member/expected-yes", "member/expected-no"];
+        "sequence/boundary-shift","parse/accept-accept", "parse/reject-reject", "parse/unspecified-shape-skipped", "sets/queried", "sets/window-iterated", "sweep/every-code-point", "pull/next", "pull/take", "pull/nth(0)", "pull/nth(k)-then-next", "pull/skip-take", "pull/step_by", "pull/for-loop", "parse/leading-zero-accepted:sets-judged", "invalid-item/in-list", "member/expected-yes", "member/expected-no"];
     meta.assumptions = vec!["the clock seen by CronSchedule::next is pinned through the cfg(astrolabe_verif) hook (thread-local)".into()];
     Ok((meta, out))
 }
